@@ -222,11 +222,18 @@ def _branch_and_price(
     if lp_obj == float("inf"):
         return Result(None, float("inf"), 0, total_cg_iters, Status.INFEASIBLE)
 
+    # Only the root LP is priced over all columns, so only its value bounds every integer
+    # solution (deeper nodes are solved over the pool generated so far). It is a bound only
+    # if column generation stopped because no improving column exists.
+    root_converged = cg_iters < max_iter
+    lower_bound = ceil(lp_obj - eps) if root_converged else 0
+
     # Check if root LP is already integer
     frac_idx, frac_val = _most_fractional(x_vals, eps)
     if frac_idx is None:
         solution = _build_solution(x_vals, columns, eps)
-        return Result(solution, float(sum(solution.values())), 0, total_cg_iters, Status.OPTIMAL)
+        status = Status.OPTIMAL if root_converged else Status.FEASIBLE
+        return Result(solution, float(sum(solution.values())), 0, total_cg_iters, status)
 
     # Initialize B&B
     best_solution: dict[tuple[int, ...], int] | None = None
@@ -278,8 +285,8 @@ def _branch_and_price(
                 best_solution = candidate
                 best_obj = obj
 
-                # Check gap
-                gap = (best_obj - lp_obj) / max(abs(best_obj), 1e-10)
+                # Check gap against the global lower bound
+                gap = (best_obj - lower_bound) / max(abs(best_obj), 1e-10)
                 if gap < gap_tol:
                     return Result(best_solution, best_obj, nodes_explored, total_cg_iters, Status.OPTIMAL)
             continue
@@ -302,7 +309,9 @@ def _branch_and_price(
     if best_solution is None:
         return Result(None, float("inf"), nodes_explored, total_cg_iters, Status.INFEASIBLE)
 
-    status = Status.OPTIMAL if not tree else Status.FEASIBLE
+    # An exhausted tree proves nothing about columns that were never generated
+    gap = (best_obj - lower_bound) / max(abs(best_obj), 1e-10)
+    status = Status.OPTIMAL if gap < gap_tol else Status.FEASIBLE
     return Result(best_solution, best_obj, nodes_explored, total_cg_iters, status)
 
 
